@@ -177,7 +177,27 @@ func (s *sim) safeNow() bool {
 func (s *sim) send(body []byte, desc string) {
 	s.times = append(s.times, s.now)
 	s.sent++
-	s.queue = append(s.queue, frame(body)...)
+	// every message may arrive in any legal spelling of the header part: the
+	// length with leading zeros (a fixed-width writer), no blank after the colon,
+	// other header fields around it
+	n := strconv.Itoa(len(body))
+	switch s.src.Intn(24, "c18.framing") {
+	case 20:
+		s.r.Faults["frame.zero-padded-length"]++
+		s.queue = append(s.queue, "Content-Length: "+strings.Repeat("0", 10-len(n))+n+"\r\n\r\n"...)
+	case 21:
+		s.r.Faults["frame.no-space-after-colon"]++
+		s.queue = append(s.queue, "Content-Length:"+n+"\r\n\r\n"...)
+	case 22:
+		s.r.Faults["frame.extra-headers"]++
+		s.queue = append(s.queue, "Content-Type: application/vscode-jsonrpc; charset=utf-8\r\nContent-Length: "+n+"\r\n\r\n"...)
+	case 23:
+		s.r.Faults["frame.extra-headers"]++
+		s.queue = append(s.queue, "Content-Length: "+n+"\r\nContent-Type: application/vscode-jsonrpc; charset=utf-8\r\n\r\n"...)
+	default:
+		s.queue = append(s.queue, "Content-Length: "+n+"\r\n\r\n"...)
+	}
+	s.queue = append(s.queue, body...)
 	s.tracef("%s", desc)
 }
 
